@@ -119,6 +119,71 @@ pub fn run(ctx: &Ctx) -> i32 {
         });
     }
 
+    // wide groups: a parent that lies more than 255 / 256 layers before its child
+    if ctx.wants_family("wide-groups") {
+        let mut cases: Vec<(usize, u32, usize)> = Vec::new();
+        for k in [1usize, 2, 254, 255, 256, 257, 300, 1000] {
+            for flags in 0..4u32 {
+                for shape in 0..3usize {
+                    cases.push((k, flags, shape));
+                }
+            }
+        }
+        ctx.family("wide-groups", cases.len() as u64, "a group with k children, k in {1,2,254,255,256,257,300,1000} (shape 0), the same nested inside an outer group (shape 1), and k empty sub-groups followed by one leaf of the outer group (shape 2); group / outer flags in all 4 combinations; every child's parent(), is_visible() and pixel compared with the model", true);
+        cases.par_iter().for_each(|(k, flags, shape)| {
+            let case = || format!("k={} flags={:02b} shape={}", k, flags, shape);
+            if !ctx.wants("wide-groups", &case) {
+                return;
+            }
+            let fmt = Fmt::Rgba;
+            let mut f = gen::file((*k).min(1200) as u16 + 1, 1, &fmt, &[10]);
+            let mut idx = 0u16;
+            let mut cels: Vec<u16> = Vec::new();
+            let vis = |b: u32| if flags >> b & 1 == 1 { 3u16 } else { 2 };
+            let base_level = if *shape >= 1 {
+                let mut o = Layer::group("outer");
+                o.flags = vis(1);
+                f.frames[0].push(Body::Layer(o));
+                idx += 1;
+                1
+            } else {
+                0
+            };
+            if *shape <= 1 {
+                let mut g = Layer::group("g");
+                g.level = base_level;
+                g.flags = vis(0);
+                f.frames[0].push(Body::Layer(g));
+                idx += 1;
+                for i in 0..*k {
+                    let mut l = Layer::image(&format!("c{}", i));
+                    l.level = base_level + 1;
+                    l.flags = if i % 7 == 3 { 2 } else { 3 };
+                    f.frames[0].push(Body::Layer(l));
+                    cels.push(idx);
+                    idx += 1;
+                }
+            } else {
+                for i in 0..*k {
+                    let mut g = Layer::group(&format!("e{}", i));
+                    g.level = 1;
+                    g.flags = vis(0);
+                    f.frames[0].push(Body::Layer(g));
+                    idx += 1;
+                }
+            }
+            // one more leaf directly under the outermost open group (or at top level)
+            let mut last = Layer::image("last");
+            last.level = base_level;
+            f.frames[0].push(Body::Layer(last));
+            cels.push(idx);
+            for (n, li) in cels.iter().enumerate() {
+                f.frames[0].push(raw_cel(*li, (n % 1201) as i16, 0, 255, 1, 1, vec![(n % 251) as u8, 200, (n / 251) as u8, 255]));
+            }
+            conform(ctx, "wide-groups", &case, &f, &want);
+        });
+    }
+
     // deep chains, isolated in worker processes on 2 MiB threads
     if ctx.wants_family("chains") {
         let mut cases: Vec<(usize, Option<usize>)> = Vec::new();
